@@ -117,6 +117,11 @@ type ParseRow struct {
 	Msg string            `json:"msg"`
 	Ok  bool              `json:"ok"`
 	KV  map[string]string `json:"kv"`
+	// json stages: the value tree of the line (jx), whether jx.Skip and the full walk agree on it, the typed paths
+	Json   bool     `json:"json,omitempty"`
+	Tree   *JNode   `json:"tree,omitempty"`
+	Plain  bool     `json:"plain,omitempty"`
+	Params []JParam `json:"params,omitempty"`
 }
 type TmplRow struct {
 	ID     int               `json:"id"`
@@ -927,6 +932,13 @@ func buildTables(c *Case, ins [][]Entry) {
 					row.KV = cloneMapNN(res[0].Labels)
 					addFP(row.KV)
 				}
+				if st.Op == "json" {
+					if ps, ok := jparams(names, vals); ok {
+						row.Json = true
+						row.Params = ps
+						row.Tree, row.Plain = jtree(hx.UnHex(e.Msg))
+					}
+				}
 				c.Tab.Parse = append(c.Tab.Parse, row)
 			}
 		case "line_format":
@@ -1634,6 +1646,7 @@ func main() {
 	run := func(c *Case) {
 		if c.Mode == "fp" {
 			runFP(c)
+		} else if c.Mode == "json" {
 		} else {
 			runCase(c)
 		}
@@ -1669,5 +1682,10 @@ func main() {
 			run(&c)
 		}
 		out.Put(c)
+	}
+	// json-only cases from their own stream (the stream of the chain cases is not disturbed)
+	rj := rand.New(rand.NewSource(int64(f.Seed)*31 + 7))
+	for i := 0; i < f.N/8+5; i++ {
+		out.Put(genJSONCase(rj, f.N+i))
 	}
 }
